@@ -133,12 +133,23 @@ CHECKS = {
         "or an empty reference cell are skipped and counted. Whole-file folds only. N=240.",
         "DESIGN.md section 3 C11",
     ),
+    "C17": (
+        "model_checking",
+        "explicit-state search over all update histories of a real FoldedData up to a depth, differential oracle against a fresh cube",
+        "All histories over an 8-operation alphabet (4 DM targets, 4 period targets with non-zero, distinct implied shifts) are executed up "
+        "to depth 4 (quick: 4680 per cube) / 5 (thorough) on three cube shapes with all-distinct contents; in every reached state the cube "
+        "must equal a fresh cube tuned directly to the reported (dm, period) in either call order, every profile must be a rotation of the "
+        "folded profile, dm/period must be the last targets, and (dm0,p0) must give the original bits. States are keyed by all mutable fields.",
+        "Targets come from a small alphabet; a seeded random walk with other targets (thorough) is auxiliary. The oracle decides history "
+        "independence, not the physical size of a single shift.",
+        "DESIGN.md section 3 C17",
+    ),
 }
 
 ENGINES = [
     {
         "name": "statespace",
-        "path": "vf/props/c02.py, vf/props/c10.py (BFS drivers) + vf/core/engine.py",
+        "path": "vf/props/c02.py, vf/props/c10.py, vf/props/c17.py (BFS drivers) + vf/core/engine.py",
         "serves_properties": [k for k, v in CHECKS.items() if v[0] == "model_checking"],
         "kind_free_text": "explicit-state breadth-first search over operation histories of a real object; canonical state key from all "
         "mutable fields; every transition executed on the implementation and compared with a reference model",
